@@ -8,7 +8,12 @@ Driver for stream `vmops` (C13): runs the NeoVM specification model on one scrip
   run <gasLimit|-1> <priced 0|1> <script-hex> <arg>*  -> HALT gas=<n> [<item> ...]   (top of stack first)
                                                      | FAULT gas=<n>
                                                      | TIMEOUT
-  arg (pushed in order, the last one ends on top):  n | b:0 | b:1 | i:<dec> | s:<hex> | f:<hex>
+  runm <gasLimit|-1> <priced 0|1> <n> (<rv>:<script-hex>)^n <arg>*   -> same answers: n scripts loaded one
+        after the other (LoadScript*: the first is the entry script at the bottom of the invocation stack, the
+        last one executes first); rv = -1 (any number of results), 0 or 1 (checked when the script returns into
+        the one below); the arguments go on the evaluation stack of the last script; a Pointer belongs to the
+        script it was made in (scripts with identical bytes have the same hash = the same identity)
+  arg (pushed in order, the last one ends on top):  n | b:0 | b:1 | i:<dec> | s:<hex> | f:<hex> | x (an InteropInterface)
   item:  N | B0 | B1 | I<dec> | S<hex> | S~<len>:<sha256 prefix>  (byte strings longer than 40 bytes)
          F#k=<bytes>  A#k[..]  T#k[..]  M#k{key:value,..}  (k = number of the reference object by
          first occurrence; a repeated object prints only `F#k`/`A#k`/…)  P<pos>  X
@@ -84,6 +89,7 @@ def parseArg (h : Heap) (a : String) : Option (Heap × Item) :=
   if a == "n" then some (h, .null)
   else if a == "b:0" then some (h, .bool false)
   else if a == "b:1" then some (h, .bool true)
+  else if a == "x" then some (h, .interop 0)
   else if a.startsWith "i:" then ((a.drop 2).toString.toInt?.bind checkInt).map fun n => (h, .int n)
   else if a.startsWith "s:" then (Hex.decode (a.drop 2).toString).map fun b => (h, .bytes b)
   else if a.startsWith "f:" then (Hex.decode (a.drop 2).toString).map fun b =>
@@ -130,14 +136,49 @@ def runVm (gas priced script : String) (args : List String) : Option Vm :=
     some (run cfg fuelSteps (Vm.load prog st limit h))
   | _, _, _ => none
 
-def runLine (gas priced script : String) (args : List String) : String :=
-  match runVm gas priced script args with
+def showVm : Option Vm → String
   | some v =>
     match v.state with
     | .halt => s!"HALT gas={v.gas} " ++ showStack v.heap v.result
     | .fault => s!"FAULT gas={v.gas}"
     | _ => "TIMEOUT"
   | none => "bad-op"
+
+def runLine (gas priced script : String) (args : List String) : String :=
+  showVm (runVm gas priced script args)
+
+/-- `<rv>:<hex>` -/
+def parseScript (w : String) : Option (Option Nat × Array UInt8) :=
+  match w.splitOn ":" with
+  | [rv, hex] =>
+    match rv.toInt?, decodeHexArray hex with
+    | some r, some p => some (if r < 0 then none else some r.toNat, p)
+    | _, _ => none
+  | _ => none
+
+/-- frames for scripts loaded in order (`acc` = frames so far, top first). The identity of a script is
+the index of the first script with the same bytes (Go: the script hash). -/
+def mkFrames (all : List (Option Nat × Array UInt8)) : List (Option Nat × Array UInt8) → List Frame → List Frame
+  | [], acc => acc
+  | (rv, p) :: rest, acc =>
+    let sid := (all.findIdx? (fun q => q.2 == p)).getD 0
+    mkFrames all rest ({ prog := p, scriptId := sid, retCount := rv, calls := [{ ip := 0 }] } :: acc)
+
+def runVmMulti (gas priced n : String) (rest : List String) : Option Vm :=
+  match gas.toInt?, n.toNat? with
+  | some g, some cnt =>
+    if cnt = 0 ∨ cnt > rest.length then none else
+    match (rest.take cnt).mapM parseScript, parseArgs #[] (rest.drop cnt) [] with
+    | some scripts, some (h, st) =>
+      let limit : Option Nat := if g < 0 then none else some g.toNat
+      let cfg : Cfg := { price := if priced == "1" then some priceOf else none }
+      match mkFrames scripts scripts [] with
+      | top :: below =>
+        let v : Vm := { frames := { top with estack := st } :: below, gasLimit := limit, heap := h }
+        some (run cfg fuelSteps v)
+      | [] => none
+    | _, _ => none
+  | _, _ => none
 
 /-- does the heap contain a cycle among compound objects (reachable or garbage)? colours:
 0 = unvisited, 1 = on the DFS path, 2 = done. -/
@@ -169,6 +210,15 @@ def step (ws : List String) : String :=
     -- whether any cycle of compound objects was ever built (garbage included)
     match runVm gas priced script args with
     | some v => runLine gas priced script args ++ s!" | refs={reach v} cyc={if heapHasCycle v.heap then 1 else 0}"
+    | none => "bad-op"
+  | "runm" :: gas :: priced :: n :: rest => showVm (runVmMulti gas priced n rest)
+  | "runmx" :: gas :: priced :: n :: rest =>
+    match runVmMulti gas priced n rest with
+    | some v => showVm (some v) ++ s!" | refs={reach v} cyc={if heapHasCycle v.heap then 1 else 0}"
+    | none => "bad-op"
+  | "whym" :: gas :: priced :: n :: rest =>
+    match runVmMulti gas priced n rest with
+    | some v => s!"{repr v.state} {v.faultMsg} refs={reach v}"
     | none => "bad-op"
   | ["conv", fn, a] =>
     -- stackitem/conversion.go on one primitive item
